@@ -72,4 +72,14 @@ def subslice? (b : List UInt8) (lo hi : Int64) : Option (List UInt8) :=
     some ((b.drop lo.toInt.toNat).take (hi.toInt.toNat - lo.toInt.toNat))
   else none
 
+/-- `n := copy(dst, src[off:])` for a buffer `dst` made in the function (whole, from its start) and a
+    byte-slice parameter `src`: `src[off:]` panics unless `0 ≤ off ≤ len(src)` (`none`); then
+    `n = min(len(dst), len(src) - off)` bytes are copied to the front of `dst`. -/
+def copyTail? (dst src : List UInt8) (off : Int64) : Option (List UInt8 × Int64) :=
+  if 0 ≤ off.toInt ∧ off.toInt ≤ src.length then
+    let t := src.drop off.toInt.toNat
+    let n := min dst.length t.length
+    some (t.take n ++ dst.drop n, Int64.ofNat n)
+  else none
+
 end ScionTime.Go
